@@ -74,7 +74,7 @@ def async_oracle(d, r):
     from .. import asynctwin
     fp = int(flatcheck.fingerprint(d), 16)
     out = []
-    qmode = 1 + fp % 2
+    qmode = fp % 3          # 0: no queue (nested events run inside the awaiting callback), 1: one queue, 2: per model
     dd = asynctwin.clone(d)
     if qmode == 2:
         # per-model queues: comparable with the synchronous queue on a single model
